@@ -656,3 +656,6 @@ def workload(ctx):
     ctx.floor("identifiers_renamed", 1000)
     ctx.floor("dot_exports", 1000)
     ctx.floor("dot_edges", 2000)
+
+
+RULE = RULE + '  Later additions: interned second streams; look-ups whose attribute name spells an identifier; failed disambiguations (raising filter) before every judged one.'
